@@ -33,6 +33,9 @@ def run(tier, seed, t0):
     na = T(tier, 30, 600)
     R.run_inv(Inv("forces", n, "plain", timeout=T(tier, 600, 7200)), seed, wd, m)
     R.run_inv(Inv("forces", na, "asan", timeout=T(tier, 900, 7200), first=n), seed, wd, m)
+    # many cells evaluated concurrently (as the solver's parallel loop does) against the same cells one after another
+    npar = T(tier, 16, 400)
+    R.run_inv(Inv("forces_par", npar, "plain", threads=8, shards=2, timeout=T(tier, 900, 7200), tag="forces_par/plain/t8"), seed, wd, m)
     meshes = n + na
     floors = {}
     for c in CFGS:
@@ -46,6 +49,8 @@ def run(tier, seed, t0):
     floors["meshes_with_concave_hinge"] = (m.bins.get("meshes_with_concave_hinge", 0), 0.2 * meshes)
     floors["meshes_with_flat_hinge"] = (m.bins.get("meshes_with_flat_hinge", 0), 0.02 * meshes)
     floors["meshes_with_face_angle_outside_10_170deg"] = (m.bins.get("meshes_with_face_angle_outside_10_170deg", 0), 0.01 * meshes)
+    floors["meshes_with_needle_triangles"] = (m.bins.get("family:sliver_ico", 0) + m.bins.get("family:sliver_box", 0) + m.bins.get("family:sliver_uvx", 0) + m.bins.get("family:sliver_prism", 0) + m.bins.get("family:sliver_icoell", 0) + m.bins.get("family:sliver_icostar", 0), 0.03 * meshes)
+    floors["parallel_cell_evaluations"] = (m.bins.get("cell_evaluations", 0), 40 * npar)
     floors["pressure_capped"] = (m.bins.get("max_pressure:capping", 0), 0.03 * meshes)
     for cls in ("epithelial", "lumen", "nucleus"):
         floors["class_" + cls] = (m.bins.get("class:" + cls, 0), 0.15 * meshes)
